@@ -189,6 +189,10 @@ impl Family {
 }
 
 fn encode_mode_byte(cur_mode: u8, tgt_type: u8) -> (r: u8) ensures r == (cur_mode & 0x3) | ((tgt_type & 0x3) << 2) {
+    proof {
+        let a = cur_mode; let b = tgt_type;
+        assert(a & 0x3 == a % 4 && b & 0x3 == b % 4 && (b & 0x3) << 2 == (b % 4) * 4 && (b % 4) * 4 <= 12 && (a & 0x3) | ((b & 0x3) << 2) == ((b & 0x3) << 2) | (a & 0x3)) by (bit_vector);
+    }
     (cur_mode & 0x3) | ((tgt_type & 0x3) << 2)
 }
 
@@ -534,6 +538,7 @@ impl Array6 {
             let a = self.bytes@[byte_idx as int]; let b = self.bytes@[byte_idx as int + 1];
             assert([a, b]@ =~= seq![a, b]);
             assert(shift < 8 ==> ((two_bytes >> shift) & 0x3f) == ((two_bytes >> (shift as u16)) & 0x3f) && ((two_bytes >> shift) & 0x3f) <= 63) by (bit_vector);
+            assert((two_bytes >> shift) & 0x3f == 0x3f & (two_bytes >> shift)) by (bit_vector);
         }
 
         // Extract 6 bits at the shift position
